@@ -42,6 +42,7 @@ def registry():
                 M.CacheHistories("mem-faultfree", False, 60000, 900000),
                 M.CacheHistories("mem-faults", True, 60000, 900000),
                 P.Programs("pipe-dcache", 25000, 400000, force={"dc_on": True, "ic_on": False}),
+                P.Programs("pipe-dcache-long", 600, 20000, force={"dc_on": True, "ic_on": False}, long=True),
             ],
             design_ref="DESIGN.md §5, §7 C03",
             rule=(
@@ -79,6 +80,7 @@ def registry():
                 M.CacheHistories("mem-faultfree", False, 60000, 900000),
                 M.CacheHistories("mem-faults", True, 40000, 600000),
                 P.Programs("pipe-dcache", 40000, 600000, force={"dc_on": True, "ic_on": False}),
+                P.Programs("pipe-dcache-long", 800, 25000, force={"dc_on": True, "ic_on": False}, long=True),
             ],
             design_ref="DESIGN.md §5, §7 C09",
             rule=(
@@ -282,7 +284,8 @@ def registry():
         CheckDef(
             prop="C11",
             title="instruction cache transparent, fetch accounting",
-            batches=[P.Programs("pipe-icache", 30000, 500000, force={"ic_on": True})],
+            batches=[P.Programs("pipe-icache", 30000, 500000, force={"ic_on": True}),
+                     P.Programs("pipe-icache-long", 800, 25000, force={"ic_on": True}, long=True)],
             design_ref="DESIGN.md §7 C11",
             rule=(
                 "pipesim: programs of C02 with a random tiny instruction cache in both modes: results and tick count equal "
@@ -439,7 +442,8 @@ def registry():
     reg["C10"].rule += (" memsim batch icache-policy-walk: the same spy-driven policy model on the instruction-cache system (fetch streams, "
                         "reloads, reset() - a fresh policy state is expected afterwards), in a third of the runs on the cache system the "
                         "architectural state builds from the front end's option objects next to a data cache with the other policy.")
-    reg["C12"].batches += [P.Programs("pipe-dcache", 15000, 250000, force={"dc_on": True, "ic_on": False})]
+    reg["C12"].batches += [P.Programs("pipe-dcache", 15000, 250000, force={"dc_on": True, "ic_on": False}),
+                           P.Programs("pipe-dcache-long", 400, 15000, force={"dc_on": True, "ic_on": False}, long=True)]
     reg["C12"].rule += (" pipesim batch pipe-dcache: the histories that programs issue - at the end of every program, in each pipeline mode, "
                         "backing memory and resident blocks of the run with the cache against the flat memory of the run without it.")
     reg["C12"].components_real = reg["C12"].components_real + PIPE_REAL
